@@ -21,6 +21,10 @@ def run(ctx):
     ctx.assume('another instance handed to a method (merge) is a different object than self and is between two of its own method calls: its fields lie in the class invariant')
     from ..statrules import memo_soundness
     memo_soundness(ctx, 'R10.8', ['statistics'])
+    from ..statrules import shared_class_state
+    shared_class_state(ctx, 'R10.9', sorted(c_ for c_, ci_ in ctx.prog.classes.items() if ci_.module.name == 'statistics'),
+                       'what one statistic is told (an event type to accept, an observation) reaches every other statistic of the class: each reports more than '
+                       'its own observations')
     ctx.rule('R10.1', 'every weighted-tally query and register is total (numeric abstract interpretation)')
     N.run_totality(ctx, 'R10.1', {'statistics', 'utils'},
                    [('WeightedTally', GETTERS + ['register']), ('TimestampWeightedTally', GETTERS + ['register', 'end_observations']),
